@@ -70,6 +70,11 @@ func c20Run(ctx *core.Ctx) {
 			if len(cur) > 0 {
 				for _, tr := range []string{"bdat", "lmtpdata", "lmtpbdat"} {
 					emit(c20Case{Kind: "order", Order: append([]string{}, cur...), Transfer: tr})
+					if ctx.Thorough() && len(cur) <= 3 {
+						for rep := 1; rep <= 4; rep++ {
+							emit(c20Case{Kind: "order", Order: append([]string{}, cur...), Transfer: tr, Seed: uint64(rep)})
+						}
+					}
 				}
 			}
 			if len(cur) == maxOrder {
@@ -89,7 +94,11 @@ func c20Run(ctx *core.Ctx) {
 		}
 		rec(nil)
 		for _, cb := range []string{"NewSession", "Mail", "Rcpt", "Data", "Reset", "Logout"} {
-			for rep := 0; rep < 6; rep++ {
+			nrep := 6
+			if ctx.Thorough() {
+				nrep = 60
+			}
+			for rep := 0; rep < nrep; rep++ {
 				emit(c20Case{Kind: "incallback", Callback: cb, Seed: uint64(rep)})
 				if cb != "Reset" && cb != "Logout" {
 					emit(c20Case{Kind: "incallback", Callback: cb, Direct: true, Seed: uint64(rep)})
@@ -146,7 +155,7 @@ func c20Blocked() (lines []string, allBlocked bool) {
 }
 
 func c20Order(ctx *core.Ctx, c c20Case) {
-	ctx.Eval(fmt.Sprintf("order|%v|%s", c.Order, c.Transfer), true)
+	ctx.Eval(fmt.Sprintf("order|%v|%s|%d", c.Order, c.Transfer, c.Seed), true)
 	mode := modeSMTP
 	if c.Transfer != "bdat" {
 		mode = modeLMTPRcpt
@@ -226,8 +235,11 @@ func c20Order(ctx *core.Ctx, c c20Case) {
 				}()
 			}
 		}
-		for i := 0; i < 20; i++ {
+		for i := 0; i < 20+int(c.Seed)*40; i++ {
 			runtime.Gosched()
+		}
+		if c.Seed >= 3 {
+			time.Sleep(time.Duration(c.Seed-2) * 200 * time.Microsecond)
 		}
 	}
 	// release everything the harness controls
